@@ -427,14 +427,16 @@ def recordCells (r : Record) : List (Col × Nat) → Except Err (List (List Char
     let rest ← recordCells r cs
     .ok (fitText cell w :: rest)
 
-/-- cells of the `i`-th title line (`""` for fields with fewer title lines) -/
+/-- `col.field.title_lines[i] if i < len(col.field.title_lines) else ""` -/
+def titleItem (f : Field) (i : Nat) : Val :=
+  match f.titleLines[i]? with
+  | some v => v
+  | Option.none => Val.str []
+
+/-- cells of the `i`-th title line -/
 def titleCells (i : Nat) : List (Col × Nat) → List (List Char)
   | [] => []
-  | (c, w) :: cs =>
-    let item := match c.field.titleLines[i]? with
-      | some v => v
-      | Option.none => Val.str []
-    fitText (titleCell item) w :: titleCells i cs
+  | (c, w) :: cs => fitText (titleCell (titleItem c.field i)) w :: titleCells i cs
 
 def bodyLine (ws : List (Col × Nat)) (tw : Nat) (nSkipped : Int) : TLine → Except Err Line
   | .row r => do
